@@ -13,16 +13,41 @@ from . import core
 
 PROP = "C18"
 PART_MODULES = {"devs": "harness.devs_common"}
-# parts contributed by the other groups are registered here when their branch is merged
-for _name, _mod in (("cells", "harness.cells_common"), ("legacy", "harness.legacy_common"), ("cont", "harness.cont_common"),
-                    ("layers", "harness.layers_common"), ("collect", "harness.collect_common"), ("signals", "harness.signals_common")):
-    try:
-        _m = importlib.import_module(_mod)
+# parts contributed by the other groups: the first module of each candidate list that offers generate_rejecting
+for _name, _cands in (("cells", ("harness.c06", "harness.cells_common")), ("legacy", ("harness.c08", "harness.legacy_common")),
+                      ("cont", ("harness.c10", "harness.cont_common")), ("layers", ("harness.c11", "harness.layers_common")),
+                      ("collect", ("harness.c12", "harness.collect_common")), ("signals", ("harness.c16", "harness.signals_common"))):
+    for _mod in _cands:
+        try:
+            _m = importlib.import_module(_mod)
+        except ImportError:
+            continue
         if hasattr(_m, "generate_rejecting"):
             PART_MODULES[_name] = _mod
-    except ImportError:
-        pass
-PARTS = {k: importlib.import_module(v) for k, v in PART_MODULES.items()}
+            break
+
+
+# the kinds of rejection the property lists (a rejection of another kind — e.g. moving an agent that is not in the space,
+# a negative radius — stays in both runs and is not judged by the twin oracle)
+LISTED_KINDS = {
+    "devs": {"Past", "Unit"},
+    "cont": {"OutOfBounds"},
+}
+
+
+class Part:
+    def __init__(self, name, m):
+        self.name, self.m = name, m
+        self.C18_DRIVER = getattr(m, "C18_DRIVER", None) or m.DRIVER
+        self.C18_LEAN_MODULES = getattr(m, "C18_LEAN_MODULES", None) or [x for x in m.LEAN_MODULES if "C18" in x]
+        self.C18_THEOREMS = getattr(m, "C18_THEOREMS", None) or [t for t in m.THEOREMS if ".C18_" in t or t.startswith("C18_")]
+        self.generate_rejecting = m.generate_rejecting
+        self.run_impl = m.run_impl
+        self.oracle = getattr(m, "oracle", lambda sc, obs: [])
+        self.HEADER_LINES = getattr(m, "HEADER_LINES", 1)
+
+
+PARTS = {k: Part(k, importlib.import_module(v)) for k, v in PART_MODULES.items()}
 
 DRIVER = None
 DRIVERS = sorted({p.C18_DRIVER for p in PARTS.values()})
@@ -62,8 +87,9 @@ def _hdr(part):
 
 def oracle(sc, obs):
     part = PARTS[sc.meta["part"]]
-    bad = list(part.oracle(sc, obs)) if hasattr(part, "oracle") else []
-    rej = [i for i, o in enumerate(obs) if o.startswith("err")]
+    bad = list(part.oracle(sc, obs))
+    kinds = LISTED_KINDS.get(sc.meta["part"])
+    rej = [i for i, o in enumerate(obs) if o.startswith("err") and (kinds is None or (o.split() + ["?"])[1] in kinds)]
     if rej and not sc.meta.get("twin"):
         keep = [i for i in range(len(sc.lines)) if i not in set(rej)]
         meta = {k: v for k, v in sc.meta.items() if k not in ("trace",)}
@@ -82,7 +108,8 @@ def oracle(sc, obs):
 
 
 def nontrivial(sc, obs):
-    rej = [i for i, o in enumerate(obs) if o.startswith("err")]
+    kinds = LISTED_KINDS.get(sc.meta["part"])
+    rej = [i for i, o in enumerate(obs) if o.startswith("err") and (kinds is None or (o.split() + ["?"])[1] in kinds)]
     return bool(rej) and rej[0] < len(obs) - 1
 
 
